@@ -226,6 +226,60 @@ def scale_histories(pid, tier, seed):
         regs = [N + 1, N, 7]
         nreg = ops_on(regs, lines, N + 2, 25)
         yield ("scale-gc-at-%d" % top, lines, {"kind": "scale", "family": "scale", "classes": {"scale:gc-at-2^16": 1}, "timeout": 60})
+    # (4) two nodes whose indices differ by exactly 2^15 / 2^16 used together in one call (a key that keeps 16 bits of an index, or
+    #     shifts by 16 where 32 is needed, confuses them); truth tables over x1..x4 are known to the runner (nvars 4)
+    for dist in (32768, 65536):
+        lines = ["cfg 18 12 10", "nvars 4", "const 1", "const 0", "var 1", "var 2", "var 3", "var 4"]   # regs 2..5 = x1..x4, indices 2..5
+        # A candidates: x2 (index 3), x3 (index 4); pad with fresh variables so that the next new node sits at index(A) + dist
+        for (areg, aidx, mk) in ((3, 3, "and 3 5"), (4, 4, "or 4 5")):
+            pass
+        nreg = 6
+        last = 5                                  # last_index after the preamble
+        # B1 = x2 & x4 must land at 3 + dist: pad (3 + dist - 1 - last) nodes
+        pad = 3 + dist - 1 - last
+        lines += ["var %d" % (1000 + i) for i in range(pad)]
+        nreg += pad
+        lines.append("and 3 5"); b1 = nreg; nreg += 1          # index 3 + dist
+        lines.append("or 4 5"); b2 = nreg; nreg += 1           # index 4 + dist (x3 | x4: one new node)
+        lines.append("ite 2 %d 3" % b1); g1 = nreg; nreg += 1  # g1 = x1 ? (x2 & x4) : x2   (cofactors at distance dist)
+        lines.append("ite 2 %d 4" % b2); g2 = nreg; nreg += 1
+        lines.append("xor 2 4"); f1 = nreg; nreg += 1           # x1 xor x3
+        lines.append("xor 2 3"); f2 = nreg; nreg += 1
+        regs = [2, 3, 4, 5, b1, b2, g1, g2, f1, f2]
+        for (f, v, g) in ((f1, 3, g1), (f2, 2, g1), (f1, 3, g2), (f2, 3, g2), (f1, 1, g1)):
+            lines.append("compose %d %d %d" % (f, v, g)); nreg += 1
+            lines.append("compose ~%d %d ~%d" % (f, v, g)); nreg += 1
+        for a in (b1, 3, g1, f1):
+            for b in (3, b1, b2, 4, g2):
+                for op in ("constrain", "restrict", "and", "xor"):
+                    lines.append("%s %d %d" % (op, a, b)); nreg += 1
+        lines.append("ite %d %d %d" % (f1, b1, 3)); nreg += 1
+        lines.append("ite %d %d %d" % (g1, 3, b1)); nreg += 1
+        lines.append("itec %d %d %d" % (f1, b1, 3))
+        lines.append("implies %d %d" % (b1, 3))
+        lines.append("substm %d 2 2 1 4 0" % g1); nreg += 1
+        lines.append("size %d" % g1)
+        nreg = ops_on(regs, lines, nreg, 20)
+        yield ("scale-distance-%d" % dist, lines, {"kind": "scale", "family": "scale", "classes": {"scale:index-distance-2^%d" % (15 if dist == 32768 else 16): 1}, "timeout": 60})
+    # (5) one diagram with more than 2^17 nodes (OR of x_i & y_i under the order x1..xn, y1..yn), then the queries: they must
+    #     neither create nor remove a node at any size
+    if pid in ("C12", "C16", "C04", "C13", "C14", "C03", "C02"):
+        n = 17 if tier == "quick" else 18
+        lines = ["cfg 20 14 12", "nvars 1", "const 1", "const 0"] + ["var %d" % v for v in range(1, 2 * n + 1)]      # reg v+1 = variable v
+        nreg = 2 * n + 2
+        terms = []
+        for i in range(1, n + 1):
+            lines.append("and %d %d" % (i + 1, n + i + 1)); terms.append(nreg); nreg += 1
+        acc = terms[0]
+        for tm in terms[1:]:
+            lines.append("or %d %d" % (acc, tm)); acc = nreg; nreg += 1
+        big = acc
+        lines += ["implies %d %d" % (big, terms[0]), "implies %d %d" % (terms[0], big), "implies ~%d %d" % (big, 2),
+                  "itec %d %d %d" % (big, terms[1], 1), "itec %d 1 %d" % (2, big), "size %d" % big, "size ~%d" % big,
+                  "satcount %d %d" % (big, 2 * n), "onesat %d" % big, "onesat ~%d" % big, "desc 1 %d" % big]
+        lines.append("and %d %d" % (big, 2)); nreg += 1
+        lines.append("implies %d %d" % (nreg - 1, big))
+        yield ("scale-huge-diagram", lines, {"kind": "scale", "family": "scale", "classes": {"scale:diagram>=2^17": 1}, "timeout": 120})
     # (3) one hole followed by thousands of occupied cells, then new nodes
     for M in (4500, 9000):
         hole = rng.randrange(3, 40)
